@@ -213,6 +213,8 @@ structure CallObs where
   repoViewSame : Bool            -- the repository resolves the tag and every digest exactly as just before the call
   handedSame : Bool              -- every descriptor Resolve has handed out so far still has the contents it had then
   optsSame : Bool                -- UserMetadata (of every call) and PluginConfig maps have their original contents
+  producedSame : Bool            -- everything EARLIER pushes produced still is what it was: the annotation map objects handed
+                                 -- to PushSignature, the descriptors returned, the layout's records of the earlier signatures
   sigCounts : List Nat           -- signatures attached to each artifact afterwards
   deriving DecidableEq, Repr, FromJson, ToJson
 
@@ -250,6 +252,9 @@ structure World where
   tag : Option Nat
   handed : List (MapRef × AnnMap)   -- annotation maps of the descriptors Resolve handed out, with their contents then
   sigs : List Nat                   -- signatures attached to each artifact
+  produced : List (MapRef × AnnMap) -- annotation maps handed to PushSignature (the repository keeps the very object in its
+                                    -- record of the signature, the caller gets it back in the manifest descriptor), with
+                                    -- their contents then
   deriving Repr
 
 /-- set-up: cell k = the repository's annotation map of artifact k, cell n+c = the caller's PluginConfig map c,
@@ -257,7 +262,7 @@ cell n+m+j = UserMetadata of step j (n = number of artifacts, m = number of Plug
 def initCells (i : Input) : List AnnMap := i.arts.map (·.ann) ++ i.pluginConfigs ++ i.steps.map (·.md)
 
 def initWorld (i : Input) : World :=
-  { heap := { cells := initCells i }, tag := i.tag, handed := [], sigs := i.arts.map (fun _ => 0) }
+  { heap := { cells := initCells i }, tag := i.tag, handed := [], sigs := i.arts.map (fun _ => 0), produced := [] }
 
 /-- hand out the descriptor of artifact `k` with its annotations: the repository's own map, or a copy -/
 def handOut (r : Repo) (h : Heap) (k : Nat) : Heap × MapRef :=
@@ -401,10 +406,11 @@ def annotateAndPush (i : Input) (sg : SignerCfg) (pay : AnnMap) (w : World) (t :
     else
       let h3 := h2.write ann Facts.c11CreatedKey (rfc3339 sg.time)
       let t' := { t with subject := some (k, h3.read resolved), pushAnn := some (h3.read ann), payload := some (k, pay) }
+      let pr := w.produced ++ [(ann, h3.read ann)]
       match i.repo.push with
-      | .fails => ({ w with heap := h3 }, t')
-      | .indexDeleteFails => ({ w with heap := h3, sigs := bump k w.sigs }, { t' with returnedResolved := true })
-      | .ok => ({ w with heap := h3, sigs := bump k w.sigs }, { t' with ok := true, returnedResolved := true })
+      | .fails => ({ w with heap := h3, produced := pr }, t')
+      | .indexDeleteFails => ({ w with heap := h3, sigs := bump k w.sigs, produced := pr }, { t' with returnedResolved := true })
+      | .ok => ({ w with heap := h3, sigs := bump k w.sigs, produced := pr }, { t' with ok := true, returnedResolved := true })
 
 /-- one `SignOCI` call -/
 def signOCI (i : Input) (w : World) (c : Step) : World × Trace :=
@@ -449,6 +455,7 @@ def observe (i : Input) (tagBefore : Option Nat) (w : World) (t : Trace) : CallO
     handedSame := w.handed.all (fun (r, snap) => w.heap.read r == snap),
     optsSame := (w.heap.cells.drop i.arts.length).take (i.pluginConfigs.length + i.steps.length) ==
       i.pluginConfigs ++ i.steps.map (·.md),
+    producedSame := w.produced.all (fun (r, snap) => w.heap.read r == snap),
     sigCounts := w.sigs }
 
 def runSteps (i : Input) : World → List Step → List CallObs
@@ -574,7 +581,7 @@ def callVerdict (i : Input) (tag : Option Nat) (c : Step) (before : List Nat) (o
        | some k => !refused i c k
        | none => true) ||
         (!o.ok && o.signed.isNone && o.subject.isNone && o.pushAnn.isNone && o.sigCounts == before),
-    frame := o.repoViewSame && o.handedSame && o.optsSame,
+    frame := o.repoViewSame && o.handedSame && o.optsSame && o.producedSame,
     oneSignature := o.sigCounts == sigsAfter i tag c before && (!o.ok || o.subject.isSome),
     succeedsIndependentOfHistory := o.ok == expectedOk i tag c,
     resolveAsked := o.resolveArg == (if optsValid c.opts then some (refArg c.ref) else none),
